@@ -53,7 +53,7 @@ theorem mongo_update_roundtrip (c : Compile) (p0 p : Policy) (d0 d : Doc)
     fromMongoDoc n p.stag p.etag (setAll d d0) = some p := by
   obtain ⟨x0, hs0, _⟩ := mongoDoc_shape c p0 d0 h0
   obtain ⟨x, hs, _⟩ := mongoDoc_shape c p d h
-  obtain ⟨x', hs'⟩ := update_shape hs0 hs
+  have hs' := update_shape hs0 hs
   rw [fromMongoDoc, stripMongo_shape hs']
   exact policy_roundtrip p hw _ n hn
 
